@@ -29,13 +29,12 @@ def pda_is_push_pop(P: PDA) -> bool:
     return all([P.is_push_pop_transition(p, a, u, q, v)  for (p, a, u), Q1 in delta.items() for (q, v) in Q1])
 
 
-# TODO: implement a more robust solution
 def fresh_symbol(Sigma: Set[str], symbols: Iterable[str]) -> Symbol:
-    for s in symbols:
+    """Returns a symbol that is not in Sigma: the first unused one of symbols, or else of the letters from 'α' onwards"""
+    for s in itertools.chain(symbols, map(chr, itertools.count(0x3b1))):
         symbol = Symbol(s)
         if symbol not in Sigma:
             return symbol
-    raise RuntimeError('Could not find a fresh symbol in {}'.format(symbols))
 
 
 def pda_to_one_accepting_state_in_place(P: PDA) -> None:
@@ -69,7 +68,7 @@ def pda_to_accept_on_empty_stack_in_place(P: PDA) -> None:
     F = P.F
     epsilon = P.epsilon
 
-    stack_bottom = fresh_symbol(Gamma, '$@#*&!?')
+    stack_bottom = fresh_symbol(Gamma | {epsilon}, '$@#*&!?')
     Gamma.add(stack_bottom)
 
     # define a new initial state
@@ -112,8 +111,7 @@ def pda_to_push_pop_in_place(P: PDA) -> None:
     pda_to_one_accepting_state_in_place(P)
 
     # add intermediate states to enforce push/pop transitions
-    dummy = Symbol('∅')
-    assert dummy not in Gamma # TODO: implement a robust solution
+    dummy = fresh_symbol(Gamma | {epsilon}, '∅')
     Gamma.add(dummy)
     delta1 = defaultdict(lambda: set([]))
     for (p, a, u), Q1 in delta.items():
